@@ -43,7 +43,7 @@ man = {
     }],
     "checks": checks,
     "not_applicable": na,
-    "notes": "All checks rebuild the harness against /repo's working tree on every run. Exit 2 from a check means inconclusive (build failure, timeout), never a violation. Fixed defects are listed in known_findings.txt as 'fixed:' lines and suppress nothing.",
+    "notes": "All checks rebuild the harness against /repo's working tree on every run. Exit 2 from a check means inconclusive (build failure, timeout), never a violation. Fixed defects are listed in known_findings.txt as 'fixed:' lines and suppress nothing; the one recorded finding (C08, 'known:' line) is excluded by construction and printed as KNOWN-FINDING.",
 }
 json.dump(man, open(os.path.join(ROOT, "MANIFEST.json"), "w"), indent=1)
 print(f"MANIFEST.json: {len(checks)} checks, {len(na)} not claimed")
